@@ -11,7 +11,7 @@ from common import Check
 SIZES = [0, 1, 2, 65535, 65536, 65537, 131071, 131072, 131073, 524287, 524288, 524289, 1048577]
 KINDS = ['zeros', 'random', 'half', 'text', 'gz']
 PATHS = ['add_object', 'add_streamed_object', 'pack_plain', 'pack_z', 'pack_one_plain', 'pack_one_z', 'pack_streamed_bytesio',
-         'pack_streamed_lazy', 'loose_then_pack', 'loose_then_pack_z', 'loose_then_pack_auto', 'pack_then_repack_auto']
+         'pack_streamed_lazy', 'loose_then_pack', 'loose_then_pack_z', 'loose_then_pack_auto', 'pack_then_repack_auto', 'pack_streamed_offset']
 
 
 def content(kind, size, seed):
@@ -60,6 +60,19 @@ def run_cell(cell):
                 f.write(b)
             k = c.add_streamed_objects_to_pack([LazyOpener(Path(p))], open_streams=True, compress=cell['seed'] % 2 == 1,
                                                no_holes=cell['seed'] % 3 == 0, no_holes_read_twice=cell['seed'] % 5 != 0)[0]
+        elif path == 'pack_streamed_offset':
+            # a seekable stream handed over at a non-zero position (the caller consumed a header): whichever bytes the library stores for
+            # it (all of them after a rewind, or the rest), the key handed back must be the digest of exactly the bytes stored under it
+            pos = min(len(b), 1 + cell['seed'] % 7)
+            st = io.BytesIO(b)
+            st.seek(pos)
+            k = c.add_streamed_object_to_pack(st, compress=cell['seed'] % 2 == 0, no_holes=cell['seed'] % 3 != 0, no_holes_read_twice=cell['seed'] % 5 != 0)
+            got = c.get_object_content(k)
+            if store.H(ht, got) != k:
+                return f'{path}: the key {k[:10]} handed back for a stream passed at position {pos} is not the digest of the {len(got)} bytes stored under it'
+            if got not in (b, b[pos:]):
+                return f'{path}: stream passed at position {pos}: stored {len(got)} bytes that are neither the whole stream nor its rest'
+            b = got
         elif path == 'pack_then_repack_auto':
             from disk_objectstore import CompressMode
             k = c.add_objects_to_pack([other[0], b, other[1]], compress=cell['seed'] % 2 == 0)[1]
